@@ -22,6 +22,29 @@ CHECKS = {
             "puts the real 32-bit counter at the same distance from 2^32-1; TraceCL.tla allows the one freedom the statement grants (invocations in "
             "progress at the wrap may call later additions) and is exact otherwise.",
             "TLA+ model checking (TLC) with scaled counter + cover replay with the counter hook + TLC trace validation"),
+    "C04": (MC, "7/C04", "seq",
+            "TLC model-checks DQImpl.tla (dispatcher + queue, listener lists at the level verified by CLImpl) for bounded histories over two event "
+            "keys incl. stale handles and dispatch from listeners, emits the transition cover; the scripts run on the real EventDispatcher/EventQueue "
+            "in type worlds (key type x prototype by value/const&/& x ArgumentPassingMode/getEvent x map kind x g++/clang++) with tracked key and "
+            "argument objects whose moved-from state is observable; TLC validates every execution against the abstract TraceDQ.tla (exact routing, "
+            "order, once, values).",
+            "TLA+ model checking (TLC) + transition-cover replay in a type/policy/compiler matrix + TLC trace validation"),
+    "C05": (MC, "7/C05", "seq",
+            "DQImpl.tla models the queue as the code has it (slots with occupied flag, queueList/freeList, tempList/idleList of each processing "
+            "call, queueEmptyCounter) with a ghost ledger (every event in exactly one place, FIFO, guard balanced) checked by TLC for all bounded "
+            "histories incl. operations issued from listeners and predicates; transition cover replayed on the real EventQueue; TraceDQ.tla is the "
+            "exactly-once / FIFO / put-back-in-front / results oracle for each recorded execution.",
+            "TLA+ model checking (TLC) + transition-cover replay of re-entrant queue programs + TLC trace validation"),
+    "C12": (MC, "7/C12", "seq",
+            "DQImpl.tla with MixinFilter (filters as a snapshot list, scripted verdicts and argument rewrites, add/remove from inside filters and "
+            "listeners) model-checked and covered; executions of the real dispatcher/queue with MixinFilter in by-value / const& / & prototypes are "
+            "validated by TraceDQ.tla: filter order, value flow through one cell per dispatch, first false stops that dispatch only, direct = queued.",
+            "TLA+ model checking (TLC) + transition-cover replay + TLC trace validation"),
+    "C13": (MC, "7/C13", "seq",
+            "DQImpl.tla with Ordered=TRUE (stable sort after every splice) model-checked for all key sequences with duplicates and all C05 "
+            "operations; cover replayed on EventQueue with OrderedQueueList (ascending, descending, by-argument comparators); TraceDQ.tla keeps the "
+            "pending events stably sorted by the world's comparator and demands exactly-once as for C05.",
+            "TLA+ model checking (TLC) + transition-cover replay + TLC trace validation with comparator-parametric abstract queue"),
 }
 
 NOT_YET = "check not built yet in this round (see DESIGN.md section 11 for the build order); no claim is made"
